@@ -59,6 +59,9 @@ func replaceCTypes(n ast.Node) {
 	})
 }
 
+// functions whose real (C-free) bodies are kept so that package init and pure-Go helpers work
+var keepBody = map[string]bool{"NewCOWList": true, "Append": true, "Get": true}
+
 func genStub(dst string) error {
 	os.RemoveAll(dst)
 	if err := os.MkdirAll(dst, 0o755); err != nil {
@@ -124,7 +127,7 @@ func genStub(dst string) error {
 				if mentionsC(dd.Type) || (dd.Recv != nil && mentionsC(dd.Recv)) {
 					continue
 				}
-				if dd.Body != nil {
+				if dd.Body != nil && (mentionsC(dd.Body) || !keepBody[dd.Name.Name]) {
 					dd.Body = &ast.BlockStmt{List: []ast.Stmt{&ast.ExprStmt{X: &ast.CallExpr{
 						Fun:  ast.NewIdent("panic"),
 						Args: []ast.Expr{&ast.BasicLit{Kind: token.STRING, Value: `"gorocksdb stub"`}},
